@@ -14,7 +14,7 @@ import (
 func init() {
 	register(&Property{
 		ID:          "C06",
-		Explanation: "R1: the request handed to the wrapped handler on every attempt is a result of the copy routine applied to the ORIGINAL request parameter (never to a previous copy), with the buffered reader as body and its Size() as length; inside the retry loop it is a loop-header phi whose back-edge operands are copies made in that iteration. R2: the copy routine unconditionally gives the copy a CopyURL of the URL, a fresh header map filled by CopyHeaders, ContentLength = the size argument, an empty TransferEncoding, the buffered reader as Body when non-nil, and stores nothing into the original request. R3: on the way back to the next attempt, when the buffered body is non-nil, Seek(0,0) on it is passed before the handler is invoked again (delete the body==nil edge: the handler is unreachable from itself without passing the Seek). R4: the first attempt is only reachable on the success edge of multibuf.New(req.Body, ...), i.e. after the whole body was buffered. R5: utils.CopyHeaders stores into the destination only slices built by append onto the destination's own slice (never the source's slice or a slice of it), in a full range over the source. R6: the request dump made when verbose logging is on (utils.DumpHTTPRequest and what it calls) performs no map update, delete, mutating header/values call or store outside its freshly allocated copy (the copy shares the header map with the live request).",
+		Explanation: "R1: the request handed to the wrapped handler on every attempt is a result of the copy routine applied to the ORIGINAL request parameter (never to a previous copy), with the buffered reader as body and its Size() as length; inside the retry loop it is a loop-header phi whose back-edge operands are copies made in that iteration. R2: the copy routine unconditionally gives the copy a CopyURL of the URL, a fresh header map filled by CopyHeaders, ContentLength = the size argument, an empty TransferEncoding, the buffered reader as Body when non-nil, and stores nothing into the original request. R3: on the way back to the next attempt, when the buffered body is non-nil, Seek(0,0) on it is passed before the handler is invoked again (delete the body==nil edge: the handler is unreachable from itself without passing the Seek). R4: the first attempt is only reachable on the success edge of multibuf.New(req.Body, ...), i.e. after the whole body was buffered. R5: utils.CopyHeaders stores into the destination only slices built by append onto the destination's own slice (never the source's slice or a slice of it), in a full range over the source. R6: the request dump made when verbose logging is on (utils.DumpHTTPRequest and what it calls) performs no map update, delete, mutating header/values call or store outside its freshly allocated copy (the copy shares the header map with the live request). R7: utils.CopyURL copies the whole struct (or every field of the installed url.URL).",
 		NotDecided: []string{
 			"byte-for-byte equality of what multibuf returns and the spill-threshold arithmetic (dependency behaviour, trusted)",
 		},
@@ -23,7 +23,7 @@ func init() {
 	})
 	register(&Property{
 		ID:          "C07",
-		Explanation: "R1 (recorder isolation): the per-attempt recorder's Header/Write/WriteHeader never touch the client writer; a new recorder is allocated in every loop iteration; the status used for the retry decision and for relaying, and the body reader relayed, belong to THIS iteration's recorder (no loop-carried value). R2 (exactly one emission): an emission is an error-handler call that is handed the client writer, or the relay WriteHeader on it; on every path from entry to a return, except the return on the hijacked edge, exactly one emission occurs (event counting over all paths) and the relay is CopyHeaders -> WriteHeader -> io.Copy in that order. R3 (implicit 200): the recorded status is zero-tested and mapped to a valid status before ANY use of it in ServeHTTP (relay and retry context alike); sibling recorders export the status through the same mapping. R4 (empty body): WriterOnce.Reader() (which fails in its initial state) is called only on an edge proving bytes were written (a recorder field maintained by Write). R5 (bound): the attempt counter starts at i0, is incremented by exactly 1 on the only back edge, the back edge is only reachable on an edge implying counter <= K, and K - i0 + 2 <= 11; the context's attempt equals the number of invocations so far; with a nil predicate the handler is unreachable a second time. R6: the retry expression's operator table has the standard ordering sets (as C18.R1) for buffer and its sibling stream, and Attempts/ResponseCode/RequestMethod/IsNetworkError are bound to the attempt counter, the recorded status, the request method and status in {502,504}. R2 also requires that the client writer's Header() is obtained only when no further attempt is reachable, accepts an inlined merge loop for CopyHeaders and rejects assignment/aliasing stores into the client header map. R7 (= C20.R3): the recorder marks the exchange hijacked only on the success edge of the delegate Hijack. R1 also: map-typed fields of the recorder are make()-d in the iteration that allocates it. R4 also: only Write feeds the response buffer (no WriteString/ReadFrom that bypasses the byte count). R5 also: the relay is unreachable from the handler once the edges predicate == nil, counter > K and predicate(...) == false are deleted.",
+		Explanation: "R1 (recorder isolation): the per-attempt recorder's Header/Write/WriteHeader never touch the client writer; a new recorder is allocated in every loop iteration; the status used for the retry decision and for relaying, and the body reader relayed, belong to THIS iteration's recorder (no loop-carried value). R2 (exactly one emission): an emission is an error-handler call that is handed the client writer, or the relay WriteHeader on it; on every path from entry to a return, except the return on the hijacked edge, exactly one emission occurs (event counting over all paths) and the relay is CopyHeaders -> WriteHeader -> io.Copy in that order. R3 (implicit 200): the recorded status is zero-tested and mapped to a valid status before ANY use of it in ServeHTTP (relay and retry context alike); sibling recorders export the status through the same mapping. R4 (empty body): WriterOnce.Reader() (which fails in its initial state) is called only on an edge proving bytes were written (a recorder field maintained by Write). R5 (bound): the attempt counter starts at i0, is incremented by exactly 1 on the only back edge, the back edge is only reachable on an edge implying counter <= K, and K - i0 + 2 <= 11; the context's attempt equals the number of invocations so far; with a nil predicate the handler is unreachable a second time. R6: the retry expression's operator table has the standard ordering sets (as C18.R1) for buffer and its sibling stream, and Attempts/ResponseCode/RequestMethod/IsNetworkError are bound to the attempt counter, the recorded status, the request method and status in {502,504}. R2 also requires that the client writer's Header() is obtained only when no further attempt is reachable, accepts an inlined merge loop for CopyHeaders and rejects assignment/aliasing stores into the client header map. R7 (= C20.R3): the recorder marks the exchange hijacked only on the success edge of the delegate Hijack. R1 also: map-typed fields of the recorder are make()-d in the iteration that allocates it. R4 also: only Write feeds the response buffer (no WriteString/ReadFrom that bypasses the byte count). R5 also: the relay is unreachable from the handler once the edges predicate == nil, counter > K and predicate(...) == false are deleted. R3 also: the recorder's WriteHeader stores its parameter on every path (the last status of the attempt wins).",
 		NotDecided: []string{
 			"byte equality of the relayed body (delegated to io.Copy / multibuf); parsing of the expression text (vulcand/predicate)",
 		},
@@ -32,7 +32,7 @@ func init() {
 	})
 	register(&Property{
 		ID:          "C15",
-		Explanation: "R1: every invocation of the wrapped handler is reachable only on the nil edge of the declared-length check and on the success edge of multibuf.New whose MaxBytes option is the configured request maximum itself; the check routine refuses ContentLength > max; their error edges answer through the size error handler and return. R2: the response writer is created with MaxBytes(maxResponseBodyBytes); the recorder's Write stores the underlying write's error; the relay to the client is only reachable on the writeError == nil edge. R3 (spill files): from the dependency's own SSA, the temp file of a WriterOnce is created under Write and removed only by the clean-up closure reachable from the reader's Close (WriterOnce.Close does not reach os.Remove); therefore a release routine that obtains the reader and closes it must be registered with defer after the writer's creation and before the wrapped handler is invoked, in every iteration, and every reader obtained in ServeHTTP must have its Close deferred on its success edge. R4: the request buffer is closed by a deferred call registered before any exit that follows its creation. R3 also orders the release routine: derived from the dependency (WriterOnce.Close closes the *os.File that Reader() seeks), Reader() must not be reachable after WriterOnce.Close(). R5 (= C06.R4): the size-limited multibuf.New is applied to req.Body itself on every path to the handler. R2 also: only Write feeds the response buffer (the write error is recorded for every byte). R3 also: WriterOnce.Close is invoked by the release routine only.",
+		Explanation: "R1: every invocation of the wrapped handler is reachable only on the nil edge of the declared-length check and on the success edge of multibuf.New whose MaxBytes option is the configured request maximum itself; the check routine refuses ContentLength > max; their error edges answer through the size error handler and return. R2: the response writer is created with MaxBytes(maxResponseBodyBytes); the recorder's Write stores the underlying write's error; the relay to the client is only reachable on the writeError == nil edge. R3 (spill files): from the dependency's own SSA, the temp file of a WriterOnce is created under Write and removed only by the clean-up closure reachable from the reader's Close (WriterOnce.Close does not reach os.Remove); therefore a release routine that obtains the reader and closes it must be registered with defer after the writer's creation and before the wrapped handler is invoked, in every iteration, and every reader obtained in ServeHTTP must have its Close deferred on its success edge. R4: the request buffer is closed by a deferred call registered before any exit that follows its creation. R3 also orders the release routine: derived from the dependency (WriterOnce.Close closes the *os.File that Reader() seeks), Reader() must not be reachable after WriterOnce.Close(). R5 (= C06.R4): the size-limited multibuf.New is applied to req.Body itself on every path to the handler. R2 also: only Write feeds the response buffer (the write error is recorded for every byte). R3 also: WriterOnce.Close is invoked by the release routine only. R6 (= C06.R6): the verbose request dump does not read the body or parse the form before the size-limited reader.",
 		NotDecided: []string{
 			"exact threshold arithmetic inside multibuf (trusted)",
 		},
@@ -1567,6 +1567,7 @@ func mutantsC06() []Mutant {
 		{Name: "wrong-size", File: f, Old: "\toutReq := b.copyRequest(req, body, totalSize)\n", New: "\toutReq := b.copyRequest(req, body, req.ContentLength)\n", Expect: "C06.R1"},
 		{Name: "copyheaders-shares-slices", File: "utils/netutils.go", Old: "\t\tdst[k] = append(dst[k], vv...)\n", New: "\t\tif _, ok := dst[k]; !ok {\n\t\t\tdst[k] = vv\n\t\t\tcontinue\n\t\t}\n\t\tdst[k] = append(dst[k], vv...)\n", Expect: "C06.R5"},
 		{Name: "dump-redacts-live-headers", File: "utils/dumpreq.go", Old: "\trc.Header = r.Header\n", New: "\trc.Header = r.Header\n\trc.Header.Del(\"Authorization\")\n", Expect: "C06.R6"},
+		{Name: "copyurl-field-by-field", File: "utils/netutils.go", Old: "\tout := *i\n\tif i.User != nil {\n\t\tu := *i.User\n\t\tout.User = &u\n\t}\n\treturn &out\n", New: "\tout := &url.URL{Scheme: i.Scheme, Opaque: i.Opaque, Host: i.Host, Path: i.Path, RawQuery: i.RawQuery, Fragment: i.Fragment}\n\tif i.User != nil {\n\t\tu := *i.User\n\t\tout.User = &u\n\t}\n\treturn out\n", Expect: "C06.R7"},
 	}
 }
 
@@ -1592,6 +1593,7 @@ func mutantsC07() []Mutant {
 		{Name: "deliver-success-without-asking", File: "buffer/buffer.go", Old: "\t\tif (b.retryPredicate == nil || attempt > DefaultMaxRetryAttempts) ||\n", New: "\t\tif (b.retryPredicate == nil || attempt > DefaultMaxRetryAttempts || bw.code < http.StatusBadRequest) ||\n", Expect: "C07.R5"},
 		{Name: "writestring-bypasses-write", File: "buffer/buffer.go", Old: "func (b *bufferWriter) Header() http.Header {", New: "func (b *bufferWriter) WriteString(s string) (int, error) {\n\treturn io.WriteString(b.buffer, s)\n}\n\nfunc (b *bufferWriter) Header() http.Header {", Expect: "C07.R4"},
 		{Name: "header-map-shared-by-attempts", File: "buffer/buffer.go", Old: "\tattempt := 1\n\tfor {\n", New: "\thdr := make(http.Header)\n\tattempt := 1\n\tfor {\n", More: []Edit{{"buffer/buffer.go", "\t\t\theader:         make(http.Header),\n", "\t\t\theader:         hdr,\n"}}, Expect: "C07.R1"},
+		{Name: "recorder-first-status-wins", File: "buffer/buffer.go", Old: "func (b *bufferWriter) WriteHeader(code int) {\n\tb.code = code\n", New: "func (b *bufferWriter) WriteHeader(code int) {\n\tif b.code != 0 {\n\t\treturn\n\t}\n\tb.code = code\n", Expect: "C07.R3"},
 	}
 }
 
@@ -1612,6 +1614,7 @@ func mutantsC15() []Mutant {
 		{Name: "get-skips-buffering", File: "buffer/buffer.go", Old: "\tbody, err := multibuf.New(req.Body, multibuf.MaxBytes", New: "\tsrc := req.Body\n\tif req.ContentLength <= 0 && req.Method == http.MethodGet {\n\t\tsrc = http.NoBody\n\t}\n\tbody, err := multibuf.New(src, multibuf.MaxBytes", Expect: "C15.R5"},
 		{Name: "write-closes-buffer-on-error", File: "buffer/buffer.go", Old: "func (b *bufferWriter) Header() http.Header {", New: "func (b *bufferWriter) abort() {\n\t_ = b.buffer.Close()\n}\n\nfunc (b *bufferWriter) Header() http.Header {", Expect: "C15.R3"},
 		{Name: "writestring-drops-error", File: "buffer/buffer.go", Old: "func (b *bufferWriter) Header() http.Header {", New: "func (b *bufferWriter) WriteString(s string) (int, error) {\n\treturn io.WriteString(b.buffer, s)\n}\n\nfunc (b *bufferWriter) Header() http.Header {", Expect: "C15.R2"},
+		{Name: "dump-parses-form", File: "utils/dumpreq.go", Old: "\trc.Header = r.Header\n", New: "\trc.Header = r.Header\n\t_ = r.ParseForm()\n", Expect: "C15.R6"},
 	}
 }
 
